@@ -245,7 +245,7 @@ func TestPropRouter(t *testing.T) {
 			amtIn.SetInt64(1)
 		}
 		desc := fmt.Sprintf("in=%s route=%v outs=%v whitelisted=%v", in, ids(ps), outs, whitelisted)
-		mode := rapid.SampledFrom([]string{"exactIn", "exactIn", "exactOut", "exactOut", "splitIn", "splitIn"}).Draw(rt, "mode")
+		mode := rapid.SampledFrom([]string{"exactIn", "exactIn", "exactOut", "exactOut", "splitIn", "splitIn", "splitOut", "splitOut"}).Draw(rt, "mode")
 		switch mode {
 		case "exactIn":
 			var routes []pmtypes.SwapAmountInRoute
@@ -437,6 +437,124 @@ func TestPropRouter(t *testing.T) {
 					rt.Fatalf("exact-out %s out=%s%s: true cost %s but the swap failed with maximum %s: %v", desc, amtOut, out, T, lim[k], r.Err)
 				}
 			}
+		case "splitOut": // split route exact out: 2-4 legs, each a 1..2-hop route from `in` to the same `out`, each with its own amount out
+			has := func(p pinfo, d string) bool {
+				for _, x := range p.denoms {
+					if x == d {
+						return true
+					}
+				}
+				return false
+			}
+			type legRoute struct {
+				ps  []pinfo
+				ins []string // token-in denom of every hop
+			}
+			var all []legRoute
+			for _, p1 := range w.pools {
+				if !has(p1, in) {
+					continue
+				}
+				if has(p1, out) && in != out {
+					all = append(all, legRoute{[]pinfo{p1}, []string{in}})
+				}
+				for _, mid := range p1.denoms {
+					if mid == in || mid == out {
+						continue
+					}
+					for _, p2 := range w.pools {
+						if p2.id != p1.id && has(p2, mid) && has(p2, out) {
+							all = append(all, legRoute{[]pinfo{p1, p2}, []string{in, mid}})
+						}
+					}
+				}
+			}
+			if len(all) < 2 {
+				rt.Skip("no split route")
+			}
+			var legs []pmtypes.SwapAmountOutSplitRoute
+			nl := rapid.IntRange(2, 4).Draw(rt, "legs")
+			for l := 0; l < nl; l++ {
+				lr := all[rapid.IntRange(0, len(all)-1).Draw(rt, "legRoute")]
+				var rr []pmtypes.SwapAmountOutRoute
+				for i := range lr.ps {
+					rr = append(rr, pmtypes.SwapAmountOutRoute{PoolId: lr.ps[i].id, TokenInDenom: lr.ins[i]})
+				}
+				dup := false
+				for _, ex := range legs {
+					if fmt.Sprint(ex.Pools) == fmt.Sprint(rr) {
+						dup = true
+					}
+				}
+				if dup {
+					continue
+				}
+				a := new(big.Int).Quo(w.reserve(lr.ps[len(lr.ps)-1], out), big.NewInt(rapid.Int64Range(20, 50_000).Draw(rt, "legDiv")))
+				if a.Sign() == 0 {
+					a.SetInt64(1)
+				}
+				legs = append(legs, pmtypes.SwapAmountOutSplitRoute{Pools: rr, TokenOutAmount: osmomath.NewIntFromBigInt(a)})
+			}
+			if len(legs) < 2 {
+				rt.Skip("no split route")
+			}
+			far := osmomath.NewIntFromBigInt(new(big.Int).Exp(big.NewInt(10), big.NewInt(40), nil))
+			A := c.Branch()
+			a0 := A.Bal(sender, in).Amount
+			rA := A.Exec(&pmtypes.MsgSplitRouteSwapExactAmountOut{Sender: sender.String(), Routes: legs, TokenOutDenom: out, TokenInMaxAmount: far})
+			B := c.Branch()
+			sum := osmomath.ZeroInt()
+			okB := true
+			for _, lg := range legs {
+				r := B.Exec(&pmtypes.MsgSwapExactAmountOut{Sender: sender.String(), Routes: lg.Pools, TokenInMaxAmount: far, TokenOut: sdk.NewCoin(out, lg.TokenOutAmount)})
+				if !r.OK() {
+					okB = false
+					break
+				}
+				var resp pmtypes.MsgSwapExactAmountOutResponse
+				_ = r.Unpack(&resp)
+				sum = sum.Add(resp.TokenInAmount)
+			}
+			if rA.OK() != okB {
+				if rA.OK() && !okB {
+					cs.Class("split-leg-fails-alone")
+					return
+				}
+				rt.Fatalf("split-out %s: split route failed (%v) although every leg succeeds as a separate message", desc, rA.Err)
+			}
+			if !rA.OK() {
+				cs.Class("rejected")
+				return
+			}
+			var respA pmtypes.MsgSplitRouteSwapExactAmountOutResponse
+			_ = rA.Unpack(&respA)
+			T := respA.TokenInAmount
+			if !T.Equal(sum) {
+				rt.Fatalf("split-out %s legs=%d: split route charged %s%s, its legs as separate messages charge %s", desc, len(legs), T, in, sum)
+			}
+			if sa, sb := balSnap(A, tracked), balSnap(B, tracked); sa != sb {
+				rt.Fatalf("split-out %s: balances differ from the sum of the legs:\n split: %s\n legs:  %s", desc, sa, sb)
+			}
+			debit := a0.Sub(A.Bal(sender, in).Amount)
+			// limits: the caller's maximum is a bound on the TOTAL charged over all legs
+			lim := map[string]osmomath.Int{"T-1": T.SubRaw(1), "T": T, "T+1": T.AddRaw(1), "0.9T": T.MulRaw(9).QuoRaw(10), "0.75T": T.MulRaw(3).QuoRaw(4), "0.55T": T.MulRaw(55).QuoRaw(100)}
+			for _, k := range []string{"T-1", "T", "T+1", "0.9T", "0.75T", "0.55T"} {
+				if !lim[k].IsPositive() {
+					continue
+				}
+				L := c.Branch()
+				l0 := L.Bal(sender, in).Amount
+				r := L.Exec(&pmtypes.MsgSplitRouteSwapExactAmountOut{Sender: sender.String(), Routes: legs, TokenOutDenom: out, TokenInMaxAmount: lim[k]})
+				if r.OK() {
+					if d := l0.Sub(L.Bal(sender, in).Amount); d.GT(lim[k]) {
+						rt.Fatalf("split-out %s legs=%d max-in=%s (%s of the true total %s): swap succeeded but debited %s%s in total: more than the caller's maximum", desc, len(legs), lim[k], k, T, d, in)
+					}
+				} else if (k == "T" || k == "T+1") && debit.Equal(T) {
+					rt.Fatalf("split-out %s: true total %s but the swap failed with maximum %s: %v", desc, T, lim[k], r.Err)
+				}
+			}
+			cs.Class("split-out")
+			cs.Class(fmt.Sprintf("split-out-legs=%d", len(legs)))
 		default: // split route exact in: every leg is a 1..2-hop route from in to the same out
 			var legs []pmtypes.SwapAmountInSplitRoute
 			total := new(big.Int)
@@ -536,6 +654,23 @@ func TestPropRouter(t *testing.T) {
 			}
 			if sa, sb := balSnap(A, tracked), balSnap(B, tracked); sa != sb {
 				rt.Fatalf("split %s: balances differ from the sum of the legs:\n split: %s\n legs:  %s", desc, sa, sb)
+			}
+			// limits: the caller's minimum is a bound on the TOTAL received over all legs
+			TT := respA.TokenOutAmount
+			for k, m := range map[string]osmomath.Int{"T-1": TT.SubRaw(1), "T": TT, "T+1": TT.AddRaw(1), "1.1T": TT.MulRaw(11).QuoRaw(10), "1.5T": TT.MulRaw(3).QuoRaw(2)} {
+				if !m.IsPositive() {
+					continue
+				}
+				L := c.Branch()
+				l0 := L.Bal(sender, out).Amount
+				r := L.Exec(&pmtypes.MsgSplitRouteSwapExactAmountIn{Sender: sender.String(), Routes: legs, TokenInDenom: in, TokenOutMinAmount: m})
+				if r.OK() {
+					if d := L.Bal(sender, out).Amount.Sub(l0); d.LT(m) && in != out {
+						rt.Fatalf("split %s legs=%d min-out=%s (%s of the true total %s): swap succeeded but delivered only %s%s", desc, len(legs), m, k, TT, d, out)
+					}
+				} else if k == "T" || k == "T-1" {
+					rt.Fatalf("split %s: true total %s but the swap failed with minimum %s: %v", desc, TT, m, r.Err)
+				}
 			}
 			cs.Class("split")
 		}
